@@ -7,7 +7,9 @@ from vlib import basic
 LEVEL = 'proof'
 RULE = ('a case is one scenario = one BASIC program (main part, one handler per trap for 1-4 KEY/PEN/STRIG traps, an ON ERROR '
         'section with RESUME NEXT, a plain subroutine; statements ON/OFF/STOP, ON..GOSUB n/0, ERROR, GOSUB, stray RETURN, '
-        'CLEAR, END) plus a schedule of event occurrences injected per executed line through Session.set_hook; '
+        'CLEAR, END) plus a schedule of event occurrences injected per executed line through Session.set_hook, and in about half '
+        'of them a direct-mode phase after the program has returned to the prompt (ON/OFF/STOP, ERROR entering the ON ERROR handler '
+        'from direct mode, CONT, GOTO line, CLEAR, each preceded by occurrences); '
         'hand-written boundary scenarios for every clause of the statement, then random ones from the PRNG; '
         'non-trivial = distinct (program, schedule) in which at least one occurrence is injected')
 EXPLANATION = ('theorems (PcbV.Props.C38): over ARBITRARY unbounded schedules of occurrences, ON/OFF/STOP, ON..GOSUB, dispatch '
@@ -34,11 +36,14 @@ class Scenario(object):
     """traps: list of ('KEY',k)|('PEN',)|('STRIG',j); main/handlers/errh/sub: lists of statement tokens;
     inj: {tick: [trap,...]}"""
 
-    def __init__(self, traps, main, handlers, errh, sub, inj):
+    def __init__(self, traps, main, handlers, errh, sub, inj, direct=()):
         self.traps, self.main, self.handlers, self.errh, self.sub = traps, main, handlers, errh, sub
         self.inj = {int(k): list(v) for k, v in inj.items()}
+        # direct-mode statements executed after the program has returned to the prompt: (token, [traps occurring before it])
+        self.direct = [(c, list(i)) for c, i in direct]
         self.n = len(traps)
-        code = list(main) + ['d']
+        # the GOTO after the final END keeps a CONT from running into the handler sections
+        code = list(main) + ['d', 'j%d' % len(main)]
         self.hstart = []
         for i, body in enumerate(handlers):
             self.hstart.append(len(code))
@@ -51,11 +56,12 @@ class Scenario(object):
 
     def to_json(self):
         return {'traps': [list(t) for t in self.traps], 'main': self.main, 'handlers': self.handlers, 'errh': self.errh,
-                'sub': self.sub, 'inj': {str(k): v for k, v in self.inj.items()}}
+                'sub': self.sub, 'inj': {str(k): v for k, v in self.inj.items()}, 'direct': [[c, i] for c, i in self.direct]}
 
     @classmethod
     def from_json(cls, j):
-        return cls([tuple(t) for t in j['traps']], j['main'], j['handlers'], j['errh'], j['sub'], j['inj'])
+        return cls([tuple(t) for t in j['traps']], j['main'], j['handlers'], j['errh'], j['sub'], j['inj'],
+                   [tuple(d) for d in j.get('direct', [])])
 
     def line(self, idx):
         return 10 * (idx + 1)
@@ -79,6 +85,10 @@ class Scenario(object):
             return 'ON %s GOSUB %d' % (self.ev_name(int(tok[1])), self.line(self.hstart[int(tok[1])]))
         if k == 'z':
             return 'ON %s GOSUB 0' % self.ev_name(int(tok[1]))
+        if k in 'jJ':
+            return 'GOTO %d' % self.line(int(tok[1:]))
+        if tok == 't':
+            return 'CONT'
         if tok == 'e1':
             return 'ON ERROR GOTO %d' % self.line(self.estart)
         if tok == 'e0':
@@ -107,9 +117,12 @@ def signal_for(trap):
 
 
 def run_impl(sc, max_ticks=1500):
-    """Run the scenario in a real Session.  Returns (markers, line-index log, order log, raw output)."""
+    """Run the scenario in a real Session.  Returns (markers, items, raw output); an item is one executed program line
+    ('T', hook call) or one direct-mode statement ('D'), with the occurrences delivered by the check_events before it
+    ('pre') and the iteration order of the enabled set at that moment."""
     s = basic.new_session()
-    ticks, orders = [], []
+    items, pending = [], []
+    nticks = [0]
     with s:
         for l in sc.program():
             s.execute(l)
@@ -127,27 +140,46 @@ def run_impl(sc, max_ticks=1500):
             except Exception:   # noqa  (a refactored container: fall back to ascending order)
                 return list(range(sc.n))
 
+        def occur(i):
+            q.put(signal_for(sc.traps[i]))
+            pending.append(i)
+
         def hook(token):
-            t = len(ticks)
+            t = nticks[0]
             if t >= max_ticks:
                 raise RuntimeError('scenario does not terminate')
-            ticks.append(struct.unpack_from('<H', token, 2)[0] // 10 - 1)
-            orders.append(enabled_order())
+            nticks[0] += 1
+            items.append({'kind': 'T', 'idx': struct.unpack_from('<H', token, 2)[0] // 10 - 1, 'pre': pending[:],
+                          'order': enabled_order()})
+            del pending[:]
             for i in sc.inj.get(t, ()):
-                q.put(signal_for(sc.traps[i]))
+                occur(i)
         s.set_hook(hook)
         out = s.execute(b'RUN')
+        for cmd, inj in sc.direct:
+            for i in inj:
+                occur(i)
+            items.append({'kind': 'D', 'cmd': cmd, 'pre': pending[:], 'order': enabled_order()})
+            del pending[:]
+            out += s.execute(sc.basic_text(cmd).encode())
         s.set_hook(lambda token: None)
     markers = [m.decode('latin-1') for m in re.findall(br'<([A-Z][0-9]*)>', out.replace(b'\r', b'').replace(b'\n', b''))]
-    return markers, ticks, orders, out
+    return markers, items, out
 
 
-def model_line(sc, orders, nticks):
+def model_line(sc, items):
+    def digs(l):
+        return ''.join(str(i) for i in l) or '-'
+    filler = ['T-/%s' % digs(range(sc.n))] * 2     # lets the model notice the end of the program
     sched = []
-    for t in range(nticks + 2):
-        inj = ''.join(str(i) for i in sc.inj.get(t, ())) or '-'
-        order = orders[t] if t < len(orders) else list(range(sc.n))
-        sched.append('%s/%s' % (inj, ''.join(str(i) for i in order) or '-'))
+    for it in items:
+        if it['kind'] == 'T':
+            sched.append('T%s/%s' % (digs(it['pre']), digs(it['order'])))
+        else:
+            cmd = it['cmd']
+            sched += filler
+            sched.append('D%s/%s/%s' % (digs(it['pre']), digs(it['order']), 'j' + cmd[1:] if cmd[0] == 'J' else cmd))
+    sched += filler
     return 'vm %s %s %d %d %s' % (';'.join(sc.code), ','.join(str(h) for h in sc.hstart), sc.estart, sc.sstart,
                                   ';'.join(sched))
 
@@ -155,14 +187,18 @@ def model_line(sc, orders, nticks):
 # ---------------------------------------------------------------------------------------------
 # independent oracle: the clauses of the statement, checked on the observed line log + schedule
 
-def oracle(sc, ticks, markers, stats=None):
-    """Returns a list of (key, message)."""
+def oracle(sc, items, markers, stats=None):
+    """items: the observed log (see run_impl).  Returns a list of (key, message)."""
     n, code = sc.n, sc.code
     bad = []
     # busy: certainly-or-possibly busy (used where the statement DEMANDS an entry);
     # busy_lo: certainly busy (used where the statement FORBIDS an entry)
     armed, handler, busy, busy_lo = ['off'] * n, [False] * n, [False] * n, [False] * n
     err_active, on_err = False, False
+    err_direct = False                     # the active error handler was entered by a direct-mode statement
+    maybe_suspended = False                # traps held since a trapped error; RESUME / CLEAR end that for certain
+    run_expected = True                    # a program is running (RUN, GOTO, CONT, error handler entered); else: at the prompt
+    cont_ok = False                        # END has set a position for CONT
     hist = []                              # state at dispatch t (before line t executes)
     qual = [[] for _ in range(n)]          # delivery indices of occurrences recorded while ON/STOPped
     sure = [[] for _ in range(n)]          # those that certainly have not been consumed or dropped
@@ -173,7 +209,6 @@ def oracle(sc, ticks, markers, stats=None):
     obligations = []                       # (trap, dispatch index) where the statement demands an entry
     stack = []                             # reconstructed from the observed control flow
     popped = None                          # frame popped by a RETURN at the previous tick
-    expect_end = False
     hstart = {sc.hstart[i]: i for i in range(n)}
     seen = []
 
@@ -181,26 +216,30 @@ def oracle(sc, ticks, markers, stats=None):
         if stats is not None:
             stats(tag)
 
-    for t, idx in enumerate(ticks):
-        if expect_end:
-            bad.append(('ran-after-termination', 'line %d executed after the program had ended' % sc.line(idx)))
+    for t, it in enumerate(items):
+        prog = it['kind'] == 'T'
+        idx = it['idx'] if prog else -1
+        if prog and not run_expected:
+            bad.append(('ran-after-termination', 'line %d executed although no program was running' % sc.line(idx)))
             break
-        # occurrences injected in the hook of the previous line are seen by check_events now
-        for i in sc.inj.get(t - 1, ()):
+        if not prog:
+            run_expected = False
+        # occurrences put on the queue since the last check_events are seen now
+        for i in it['pre']:
             if armed[i] != 'off':
                 qual[i].append(t)
                 sure[i].append(t)
                 note('occ:while-' + armed[i] + ('-busy' if busy[i] else ''))
             else:
                 note('occ:while-off(lost)')
-        hist.append((tuple(armed), tuple(handler), tuple(busy_lo), err_active))
+        hist.append((tuple(armed), tuple(handler), tuple(busy_lo), err_active, prog))
         for x in range(n):
-            if armed[x] == 'on' and handler[x] and not err_active and not busy[x] and sure[x]:
+            if prog and armed[x] == 'on' and handler[x] and not err_active and not maybe_suspended and not busy[x] and sure[x]:
                 obligations.append((x, t))
-        tok = code[idx] if 0 <= idx < len(code) else '?'
+        tok = (code[idx] if 0 <= idx < len(code) else '?') if prog else it['cmd']
         if tok[0] == 'm':
             seen.append(tok[1:])
-        if idx in hstart:
+        if prog and idx in hstart:
             x = hstart[idx]
             # Several traps entered by ONE dispatch run one after the other (the last one first); the start of a handler
             # reached by the RETURN of another handler may therefore have been decided at that earlier dispatch.
@@ -210,14 +249,14 @@ def oracle(sc, ticks, markers, stats=None):
             fmin = min(t, base.get(x, t))
             ok = False
             for j in range(fmin, t + 1):
-                a, h, b, e = hist[j]
+                a, h, b, e, running = hist[j]
                 # occurrences up to the (earliest possible) dispatch of entries that certainly precede j are used up
                 cons = max([f for f, te in entries[x] if te < j] + [c for c in clears if c < j] + [-1])
-                if a[x] == 'on' and h[x] and not b[x] and not e and any(cons < qd <= j for qd in qual[x]):
+                if running and a[x] == 'on' and h[x] and not b[x] and not e and any(cons < qd <= j for qd in qual[x]):
                     ok = True
                     break
             if not ok:
-                a, h, b, e = hist[t]
+                a, h, b, e, running = hist[t]
                 if e:
                     key = 'entry-during-error-handler'
                 elif a[x] != 'on':
@@ -228,7 +267,7 @@ def oracle(sc, ticks, markers, stats=None):
                     key = 'reentry-before-return'
                 else:
                     key = 'entry-without-occurrence'
-                bad.append((key, 'handler of trap %d (%s) entered at executed line #%d (line %d): %s'
+                bad.append((key, 'handler of trap %d (%s) entered at observed step #%d (line %d): %s'
                             % (x, sc.ev_name(x), t, sc.line(idx), key)))
             note('entry' + ('' if fmin == t else ':chained'))
             if any(fr[0] == 'trap' and fr[1] == x for fr in stack):
@@ -286,15 +325,29 @@ def oracle(sc, ticks, markers, stats=None):
                 error = True
         elif tok == 'u':
             if err_active:
-                err_active = False
+                err_active, maybe_suspended = False, False
+                if err_direct:
+                    run_expected = False      # back to the direct line, which has nothing left to do
+                err_direct = False
             else:
                 on_err = False
                 error = True
         elif tok == 'd':
-            expect_end = True
+            # END: at the prompt, CONT possible; the error handler (if any) is over.  (The code keeps the traps suspended
+            # after END inside an error handler until RUN/CLEAR/RESUME: nothing is demanded while `maybe_suspended`.)
+            run_expected, cont_ok = False, True
+            err_active, err_direct = False, False
+        elif k == 'J':
+            run_expected = True
+        elif tok == 't':
+            if cont_ok:
+                run_expected = True
+            else:
+                error = True
         elif tok == 'c':
             armed, handler, busy, busy_lo = ['off'] * n, [False] * n, [False] * n, [False] * n
             err_active, on_err = False, False
+            err_direct, maybe_suspended, cont_ok = False, False, False
             sure = [[] for _ in range(n)]
             clears.append(t)
             unbusied = [t] * n
@@ -308,9 +361,14 @@ def oracle(sc, ticks, markers, stats=None):
         if error:
             note('error:' + ('trapped' if on_err and not err_active else 'fatal'))
             if on_err and not err_active:
-                err_active = True
+                # the ON ERROR handler is entered, from the program or from a direct-mode statement alike
+                err_active, maybe_suspended, err_direct = True, True, not prog
+                run_expected = True
+                if not prog:
+                    note('error-handler-entered-from-direct-mode')
             else:
-                expect_end = True
+                err_active, err_direct = False, False
+                run_expected = False
     # demanded entries
     # a handler start still waiting underneath a frame that never returned (program ended inside) cannot be demanded
     unreturned = [min([fr[2]] + list(fr[3].values())) for fr in stack if fr[0] == 'trap']
@@ -321,7 +379,7 @@ def oracle(sc, ticks, markers, stats=None):
         if (waive_from is not None and t >= waive_from) or any(a <= t <= b for a, b in waived):
             note('obligation-waived')
             continue
-        if t >= len(ticks):
+        if t >= len(items):
             continue
         bad.append(('missed-entry', 'trap %d (%s) was ON with a handler, not busy, outside the error handler and had a remembered '
                     'occurrence at the dispatch before executed line #%d, but its handler was not entered' % (x, sc.ev_name(x), t)))
@@ -396,6 +454,63 @@ def boundary_scenarios():
     out.append(('strigs', S([('STRIG', 0), ('STRIG', 2), ('STRIG', 4), ('STRIG', 6)],
                             ['h0', 'h1', 'h2', 'h3', 'n0', 'n1', 'n2', 'n3', 'mM', 'mM', 'mM'], [[], ['s2'], [], []], [], [],
                             {7: [0, 1, 2, 3], 9: [2]})))
+    out += cross_mode_scenarios()
+    return out
+
+
+def cross_mode_scenarios():
+    """Histories that cross run-mode boundaries: the program arms ON ERROR and traps and returns to the prompt (END in
+    the main part / in a handler / fatal error); then direct-mode statements: ON/OFF/STOP, ERROR (enters the program's
+    error handler from direct mode), CONT, GOTO, with occurrences before each of them and inside the handler."""
+    S = Scenario
+    out = []
+    kinds = [('KEY', 1), ('PEN',), ('STRIG', 2), ('KEY', 12)]
+    for ki, K in enumerate(kinds):
+        arm = ['e1', 'h0', 'n0', 'mM']          # executed lines 0..4 (with END), the handler then starts at line #5
+        # occurrence pending when a direct-mode error enters the handler; handled when the program runs again
+        out.append(('direct-error-pending-%d' % ki, S([K], arm, [[]], ['mQ', 'mQ'], [], {}, [('x', [0]), ('J3', []), ('t', [])])))
+        # occurrence while the handler entered from direct mode is running
+        out.append(('direct-error-occurs-inside-%d' % ki, S([K], arm, [[]], ['mQ', 'mQ', 'mQ'], [], {5: [0], 6: [0]},
+                                                         [('x', []), ('mD', []), ('t', [])])))
+        # STOPped at the prompt, occurrence, error from direct mode, ON at the prompt, CONT
+        out.append(('direct-stop-error-on-%d' % ki, S([K], arm, [['mA']], ['mQ'], [], {},
+                                                  [('s0', []), ('x', [0]), ('n0', []), ('x', [0]), ('t', [])])))
+        # ON inside the handler entered from direct mode must not let the trap in before RESUME
+        out.append(('direct-error-on-in-handler-%d' % ki, S([K], ['e1', 'h0', 'mM'], [[]], ['n0', 'mQ', 'mQ'], [], {5: [0]},
+                                                        [('x', [0]), ('x', []), ('J2', [])])))
+    K1, K2 = ('KEY', 1), ('KEY', 2)
+    # the program ends inside a trap handler; another trap is pending; error from direct mode; CONT finishes the handler
+    out.append(('end-in-handler', S([K1, K2], ['e1', 'h0', 'h1', 'n0', 'n1', 'mM', 'mM', 'mM'], [['mA', 'd', 'mA'], ['mB']],
+                                   ['mQ', 'mQ'], [], {5: [0]}, [('x', [1]), ('mD', [1, 0]), ('t', []), ('J5', [0])])))
+    # fatal error inside the error handler: ON ERROR stays armed, no CONT position: CONT itself enters the handler again
+    out.append(('cant-continue', S([K1], ['h0', 'n0', 'e1', 'x', 'mM'], [[]], ['mQ', 'x'], [], {},
+                                  [('t', [0]), ('n0', []), ('J4', [0])])))
+    # END inside the error handler, then GOTO / error from direct mode
+    out.append(('end-in-error-handler', S([K1], ['h0', 'n0', 'e1', 'x', 'mM'], [[]], ['mQ', 'd', 'mQ'], [], {4: [0]},
+                                         [('J4', [0]), ('x', [0]), ('t', [])])))
+    # error from direct mode without ON ERROR, CLEAR at the prompt, GOTO with the GOSUB stack of the ended program
+    out.append(('direct-no-on-error', S([K1, K2], ['h0', 'h1', 'n0', 'n1', 'g', 'mM'], [['mA'], ['mB']], [], ['d', 'mT'], {},
+                                       [('x', [0, 1]), ('J5', []), ('t', [1]), ('c', []), ('x', []), ('t', [])])))
+    return out
+
+
+def random_direct_phase(rng, n, nmain):
+    out = []
+    for _ in range(rng.randrange(1, 7)):
+        r = rng.random()
+        if r < 0.33:
+            cmd = rng.choice(['n', 'n', 'f', 's', 's', 'h', 'z']) + str(rng.randrange(n))
+        elif r < 0.60:
+            cmd = 'x'
+        elif r < 0.75:
+            cmd = 't'
+        elif r < 0.90:
+            cmd = 'J%d' % rng.randrange(nmain + 1)
+        elif r < 0.97:
+            cmd = 'mD'
+        else:
+            cmd = 'c'
+        out.append((cmd, [rng.randrange(n) for _ in range(rng.choice([0, 0, 1, 1, 2]))]))
     return out
 
 
@@ -453,7 +568,8 @@ def random_scenario(rng):
     for t in range(0, 90):
         if rng.random() < dens:
             inj[t] = [rng.randrange(n) for _ in range(rng.choice([1, 1, 1, 2, 3]))]
-    return Scenario(traps, main, handlers, errh, sub, inj)
+    direct = random_direct_phase(rng, n, len(main)) if rng.random() < 0.45 else []
+    return Scenario(traps, main, handlers, errh, sub, inj, direct)
 
 
 # ---------------------------------------------------------------------------------------------
@@ -462,21 +578,25 @@ def check_scenarios(ctx, scs, label):
     lines, outs, cases = [], [], []
     for name, sc in scs:
         try:
-            markers, ticks, orders, raw = run_impl(sc)
+            markers, items, raw = run_impl(sc)
+            ticks = [it['idx'] for it in items if it['kind'] == 'T']
         except Exception as e:   # noqa
             ctx.fail('exception:%s' % type(e).__name__, {'scenario': sc.to_json(), 'name': name},
                      'host exception %r escaped while running the scenario' % (e,))
             continue
-        ctx.case((tuple(sc.code), tuple(sorted((k, tuple(v)) for k, v in sc.inj.items()))))
+        ctx.case((repr(sc.traps), tuple(sc.code), tuple(sorted((k, tuple(v)) for k, v in sc.inj.items())), repr(sc.direct)))
         ctx.count('ticks', len(ticks))
         ctx.count('traps:%d' % sc.n)
         for t in sc.traps:
             ctx.count('kind:' + t[0])
-        if any(len(set(o)) > 1 for o in orders):
+        if sc.direct:
+            ctx.count('scenarios-with-direct-mode-phase')
+        if any(len(set(it['order'])) > 1 for it in items):
             ctx.count('scenarios-with-several-enabled')
-        for key, what in oracle(sc, ticks, markers, ctx.count):
-            ctx.fail(key, {'scenario': sc.to_json(), 'name': name, 'observed_lines': [sc.line(i) for i in ticks]}, what)
-        lines.append(model_line(sc, orders, len(ticks)))
+        observed = [sc.line(it['idx']) if it['kind'] == 'T' else sc.basic_text(it['cmd']) for it in items]
+        for key, what in oracle(sc, items, markers, ctx.count):
+            ctx.fail(key, {'scenario': sc.to_json(), 'name': name, 'observed': observed}, what)
+        lines.append(model_line(sc, items))
         outs.append('ok %s %s 1' % (','.join(markers) or '-', ','.join(str(i) for i in ticks) or '-'))
         cases.append({'name': name, 'scenario': sc.to_json()})
         if len(ctx.samples) < 4:
@@ -505,8 +625,8 @@ def replay(ctx, payload):
         return None
     sc = Scenario.from_json(case['scenario'])
     try:
-        markers, ticks, orders, raw = run_impl(sc)
+        markers, items, raw = run_impl(sc)
     except Exception as e:   # noqa
         return 'host exception %r escaped' % (e,)
-    hits = [w for k, w in oracle(sc, ticks, markers) if k == payload.get('key')]
+    hits = [w for k, w in oracle(sc, items, markers) if k == payload.get('key')]
     return hits[0] if hits else None
